@@ -656,7 +656,7 @@ theorem first_line_shows_metadata (pal : List Colour) (opq : Nat → Bool) (a : 
     ∃ pa, ps[0]? = some pa ∧ pa.blank = false ∧ pa.number = false :=
   runF_display_first repeat_flow_ok pal opq a post s ps h
 
-example : (runF [['1'], ['2']] (fun _ => false) {} ([] ++ ln ['a'] 5 :: ln ['a'] 50 :: [])).toOption.map
+example : (runF [['1'], ['2']] (fun _ => false) {} ([] ++ ln ['a'] 5 :: ln ['a'] 6 :: [])).toOption.map
     (fun r => r.2.map (fun p => (p.blank, p.number))) = some [(false, false), (true, true)] := by decide
 
 /-- `code_and_number_intact` for the row `handle_blame_line` builds *with the generated flags*
